@@ -345,6 +345,10 @@ struct Forker {
 		struct rlimit rl;
 		rl.rlim_cur = rl.rlim_max = 0;
 		setrlimit(RLIMIT_CORE, &rl);
+#if !C12_ASAN
+		rl.rlim_cur = rl.rlim_max = (rlim_t)16 << 30;   // no sanitizer allocator hook here: a safety net only
+		setrlimit(RLIMIT_AS, &rl);
+#endif
 		if (cpu_hard)
 		{
 			rl.rlim_cur = cpu_hard, rl.rlim_max = cpu_hard + 2;
@@ -828,7 +832,8 @@ struct Target {
 	std::vector<std::pair<size_t, size_t> > ranges;     // BINARY: offsets that get the byte catalogue (empty = all)
 	std::string delims;
 	size_t stride;                                      // use every stride-th mutation only (targets whose every call is very expensive)
-	Target() : expect_accept(true), mode(TEXT), delims("\n|^"), stride(1) {}
+	bool heavy;                                         // the library allocates TMCG_MAX_STACK_CHARS (671 MB) per call: under ASan each call costs seconds
+	Target() : expect_accept(true), mode(TEXT), delims("\n|^"), stride(1), heavy(false) {}
 };
 
 struct Runner {
@@ -837,9 +842,14 @@ struct Runner {
 	std::map<std::string, unsigned> viol_emitted;
 	unsigned per_key;
 	size_t batch_cases, batch_bytes;     // a batch is closed when either is reached (batch_cases == 1: strict fork per case)
+	size_t batch_cases_now;
 	uint64_t machinery_errors;
+	std::string heavy_mode;              // "thin" (default under ASan): heavy targets use every heavy_stride-th mutation; "only": run only heavy
+	size_t heavy_stride;                 // targets, full catalogue (the plain-flavour pass); "skip"; "full"
 	Runner(drv::Report &r) : R(r), per_key(2), batch_cases(256), batch_bytes(8u << 20), machinery_errors(0)
 	{
+		heavy_mode = r.args.get("heavy", C12_ASAN ? "thin" : "full");
+		heavy_stride = (size_t)r.args.geti("heavy-stride", r.args.tier == "thorough" ? 12 : 48);
 		long b = r.args.geti("batch", 0);
 		if (b > 0) batch_cases = (size_t)b;
 		if (batch_cases > 4096) batch_cases = 4096;
@@ -890,7 +900,7 @@ struct Runner {
 		if (trace()) fprintf(stderr, "[%.1f] flush %s/%s: %zu cases from %s\n", drv::now() - R.t0, T.name.c_str(), T.seedname.c_str(), P.size(), P.empty() ? "" : P[0].id.c_str());
 		while (done < P.size())
 		{
-			if (P.size() - done == 1 || batch_cases <= 1)
+			if (P.size() - done == 1 || batch_cases_now <= 1)
 			{
 				const Pending &c = P[done];
 				Res r = F.run([&]() { return T.run(c.data); });
@@ -944,8 +954,13 @@ struct Runner {
 		P.clear();
 	}
 
-	void run_target(const Target &T)
+	void run_target(const Target &T0)
 	{
+		if (T0.heavy && heavy_mode == "skip") return;
+		if (!T0.heavy && heavy_mode == "only") return;
+		Target T = T0;
+		if (T.heavy && heavy_mode == "thin") T.stride = std::max(T.stride, heavy_stride);
+		if (T.heavy) batch_cases_now = 16; else batch_cases_now = batch_cases;
 		// the seed itself (sanity: a valid export / transcript must be accepted, else the harness is wrong)
 		std::string cid0 = T.name + "/" + T.seedname + "/seed";
 		bool my_seed = R.args.only.empty() ? (fnv(cid0) % R.args.nshards) == R.args.shard : R.args.only == cid0;
@@ -983,7 +998,7 @@ struct Runner {
 			p.id = m.id, p.cls = m.cls, p.data = m.data;
 			P.push_back(p);
 			bytes += m.data.size();
-			if (P.size() >= batch_cases || bytes >= batch_bytes)
+			if (P.size() >= batch_cases_now || bytes >= batch_bytes)
 			{
 				if (R.out_of_time()) { stop = true; P.clear(); return; }
 				flush(T, P);
